@@ -83,6 +83,32 @@ def v6_5321 (a : List Nat) : Bool :=
     | some nl, some nr => decide (nl + nr ≤ 6)     -- a dotted-quad tail counts as two groups
     | _, _ => false
 
+/-! ### The same two grammars as inductive definitions (what the theorems of `Props/C05.lean` are stated against) -/
+
+/-- `n ≥ 1` groups of 1–4 hexadecimal digits separated by single colons -/
+inductive IsGroups : Nat → List Nat → Prop
+  | one {g : List Nat} : h16 g = true → IsGroups 1 g
+  | cons {g s : List Nat} {n : Nat} : h16 g = true → IsGroups n s → IsGroups (n + 1) (g ++ 58 :: s)
+
+/-- … where the last two groups may be written as a dotted quad satisfying `q` -/
+inductive IsTail (q : List Nat → Bool) : Nat → List Nat → Prop
+  | one {g : List Nat} : h16 g = true → IsTail q 1 g
+  | quad {t : List Nat} : q t = true → IsTail q 2 t
+  | cons {g s : List Nat} {n : Nat} : h16 g = true → IsTail q n s → IsTail q (n + 1) (g ++ 58 :: s)
+
+/-- textual IPv6 address: eight groups, or `l :: r` with at most `maxg` groups written out -/
+def IsV6 (q : List Nat → Bool) (maxg : Nat) (a : List Nat) : Prop :=
+  IsTail q 8 a ∨
+  ∃ l r nl nr, a = l ++ 58 :: 58 :: r ∧ (l = [] ∧ nl = 0 ∨ IsGroups nl l) ∧ (r = [] ∧ nr = 0 ∨ IsTail q nr r) ∧ nl + nr ≤ maxg
+
+/-- the dotted-quad tail the lower bound promises to accept -/
+def quad5321 (t : List Nat) : Bool := v4Snum t && firstOctetNonZero t
+
+/-- RFC 4291 §2.2 (upper bound) -/
+def IsV6_4291 (a : List Nat) : Prop := IsV6 v4 7 a
+/-- RFC 5321 §4.1.3 (lower bound) -/
+def IsV6_5321 (a : List Nat) : Prop := IsV6 quad5321 6 a
+
 def tagLower : List Nat := [105, 112, 118, 54, 58]   -- "ipv6:"
 def tagRfc : List Nat := [73, 80, 118, 54, 58]       -- "IPv6:"
 
